@@ -21,7 +21,7 @@ def plan(steps, trace):
                 continue
             for oi, o in enumerate(st[3]):
                 if o[0] == "spawn":
-                    meta.append(dict(parent=me, key=o[2], eid=o[3] or None, sysid=o[4] or None, born=si))
+                    meta.append(dict(parent=me, key=o[2], eid=o[3] or None, sysid=o[4] or None, born=si, form=o[1]))
                 elif o[0] == "sendTo":
                     sends.append(dict(tag=2 * o[2], sender=me, kind="sendTo", spec=o[1], delay=o[3], sid=o[4], step=si, oi=oi, t=before["t"]))
                 elif o[0] == "sendParent":
@@ -196,8 +196,16 @@ def monitor(steps, engine, res):
                                  for j in range(len(meta))) if d < len(meta) else False
                     anc_reused = any(any(j > a and meta[j]["parent"] == meta[a]["parent"] and meta[j]["eid"] and meta[j]["eid"] == meta[a]["eid"]
                                          for j in range(len(meta))) for a in chain if a < len(meta) and a != r)
-                    out.append(("%s left descendant actor %d running (it is no longer in any children map)" % (why, d),
-                                dict(kind="running-descendant-after-stop", cause="explicit-id-reused-while-alive") if (reused or anc_reused) else None))
+                    # the actor whose id was reused: on the sync engine a thread-managed child has a runner thread that stops it
+                    # once it is no longer its parent's entry; finding F30 is about the actors that have none
+                    def is_reused(a):
+                        return a < len(meta) and any(j > a and meta[j]["parent"] == meta[a]["parent"] and meta[j]["eid"] and meta[j]["eid"] == meta[a]["eid"]
+                                                     for j in range(len(meta)))
+                    lost = next((a for a in chain[:chain.index(r)] if is_reused(a)), None)     # between d and the stopped actor
+                    has_runner = lost is not None and engine == "sync" and meta[lost].get("form") != "blocking"
+                    out.append(("%s left descendant actor %d running (it is no longer in any children map%s)" % (
+                                    why, d, "; thread-managed actor %d should have been stopped by its runner thread" % lost if has_runner else ""),
+                                dict(kind="running-descendant-after-stop", cause="explicit-id-reused-while-alive") if (reused or anc_reused) and not has_runner else None))
             for d in subtree(r):
                 if d < len(after["running"]) and after["running"][d]:
                     out.append(("%s left descendant actor %d running" % (why, d), None))
